@@ -5,10 +5,6 @@ import Poulpy.Model.Galois
 
 namespace C09
 
-theorem rotate_length (p : Int) (a : Poly) : (znxRotate p a).length = a.length := by
-  unfold znxRotate znxRotateW znxNegateW
-  split <;> simp <;> omega
-
-example : znxRotate 1 [1, 2, 3, 4] = [-4, 1, 2, 3] := by decide
+theorem placeholder : znxRotate 1 [1, 2, 3, 4] = [-4, 1, 2, 3] := by decide
 
 end C09
